@@ -15,8 +15,11 @@ def main():
     ctx = cm.Ctx(a.pid, tier, seed)
     try:
         if a.replay:
-            code = mod.replay(ctx, json.load(open(a.replay))) if hasattr(mod, 'replay') else 2
+            rp = json.load(open(a.replay)); rp['_path'] = os.path.abspath(a.replay)
             ctx.cleanup()
+            ctx = cm.Ctx(a.pid, rp.get('tier') or tier, int(rp.get('seed', seed)))
+            ctx.replay_of = rp
+            code = mod.run(ctx)
         else:
             code = mod.run(ctx)
     except SystemExit: raise
